@@ -157,3 +157,13 @@ PROPS["C01"] = {
     "trusted_base": COMMON_TB + ["the reflection-driven encoder (json/encode.go, json/codec.go) is NOT modelled as a whole: only components are proved (string escaping index, integer formatting, validation of RawMessage/Marshaler output through the proved recogniser); everything else is decided by differential execution against encoding/json"],
     "assumptions": ["time.Duration is excluded (sanctioned difference)"],
 }
+
+PROPS["C02"] = {
+    "harness": "c02",
+    "models": ["Generated/JsonParseGen.v parseInt/parseUint/parseString... (components)"],
+    "rule": "the C01 type universe as decode targets x documents (std encodings of random values, 56 scalar/structural probes incl. integer width boundaries and >64-bit literals, single-token mutations, key case changes, unknown/duplicate members, wrapping) "
+            "x HISTORIES of 1-4 documents decoded into the same variable x {Unmarshal, Parse, Decoder with UseNumber/DisallowUnknownFields in every combination}; observable per document: error presence and a deep rendering of the target (nil vs empty, pointer targets, dynamic types); oracle encoding/json",
+    "nontrivial": nontrivial_default,
+    "trusted_base": COMMON_TB + ["the reflection-driven decoder (json/decode.go) is NOT modelled as a whole: proved components are the syntax recogniser and scanners; everything else is decided by differential execution against encoding/json"],
+    "assumptions": ["after a failed decode both libraries restart from a fresh target (partial content is not part of the guarantee)"],
+}
